@@ -64,6 +64,11 @@ FnIvGroups / FnIvFast / FnIvInPlay -- merge.py, the per-row decisions of the tab
     `>=` -> `>` in flatten's fast path                                       FnIvFast.v source_flatten_fast fails
     `row.end >= bp_end` -> `row.end > bp_end` in _flatten_tuples             FnIvInPlay.v source_in_play_test fails
 
+intersection(mode="trim") -- C06_source_trim_row / C06_source_intersect_chunks (Proofs/FnIvTrim.v) reuse the module
+  'FnRangesIter' of tools/fnspecs/ranges_loops.py (one iteration of intersect.iter_ranges per selected row): Model/
+  Intervals.v trim_row IS that iteration in mode "trim".  Mutations `subtable.start.clip(lower=start_val)` ->
+  `clip(upper=start_val)` and `if end_val:` -> `if end_val is not None:` break Proofs/FnIvTrim.v (source_trim_row).
+
 Still outside: _flatten_tuples' yield `first_row._replace(start=bp_start, end=bp_end, **extra_fields)` (a `**mapping`:
 "row._replace with a field outside the declared record fields"), `breaks = sorted(set(itertools.chain(...)))` and the
 dict comprehension of combiners (model: breaks / comb); _squash_tuples (dict comprehension over pandas Series).
